@@ -310,3 +310,31 @@ Theorem C05_accepted_programs_do_not_crash_the_compiler : forall intern : list N
      end).
 Proof. exact accepted_programs_do_not_crash_the_compiler. Qed.
 Print Assumptions C05_accepted_programs_do_not_crash_the_compiler.
+
+(* ... and they COMPILE TO VALID CIRCUITS OF THE DECLARED SHAPE (Check/InferCompile.v = InferSafe +
+   TSemTotal.lower_program_total): the first sentence of the property, from the untyped program, with
+   Boolean premises only (the fragment tests on the untyped program; tys_program, params_ok,
+   fuel_enough, within_gate_bound on the checker's output). *)
+From GV Require Import Circuit.Ssa Compile.Lower Compile.TSem Compile.TSemTotal Compile.EndToEnd Check.InferCompile Panic.PanicSem.
+
+Theorem C05_accepted_programs_compile_to_valid_circuits : forall intern : list N -> N,
+  (forall a b, intern a = intern b -> a = b) -> forall fuel P P' fuel' dedup,
+  in_sound_fragment P = true -> structs_sorted P = true -> sp_program P = true -> main_declared P = true ->
+  (fuel <= S Wt.wt_fuel)%nat -> check_program intern fuel P = COk P' -> tys_program P' = true ->
+  params_ok P' = true -> fuel_enough fuel' P' = true -> within_gate_bound fuel' dedup P' = true ->
+  exists c fd,
+    lower_program_with fuel' dedup P' = Ok (LCircuit c) /\
+    find_fn P' (p_main P') = Some fd /\
+    ssa_validate c = None /\
+    input_gates c = fst (main_wiring P') /\
+    length (output_gates c) = (161 + szn P' (fn_ret fd))%nat /\
+    forall ins inp,
+      load_inputs (input_gates c) ins = Some inp ->
+      exists o vouts out,
+        tsem_program fuel' P' (main_args P' inp) = Ok (o, vouts) /\
+        length vouts = szn P' (fn_ret fd) /\
+        ssa_eval c ins = Some out /\
+        parse_panic out = parse_spec o vouts /\
+        (o = None -> skipn 161 out = vouts).
+Proof. exact accepted_programs_compile_to_valid_circuits. Qed.
+Print Assumptions C05_accepted_programs_compile_to_valid_circuits.
